@@ -145,7 +145,7 @@ def run_asm(case, res):
     rng = np.random.default_rng(case['seed'])
     tdep = rng.random() < 0.4
     P, feats = wl.single_assembly(
-        rng, tdep=tdep, max_rings=5, length=0.3, lf=False, regions=False,
+        rng, coolant_pool=True, tdep=tdep, max_rings=5, length=0.3, lf=False, regions=False,
         gap=wl.choose(rng, ['none', 'none', 'flow', 'no_flow',
                             'duct_average']),
         vel=wl.loguniform(rng, 0.1, 5.0))
